@@ -1,5 +1,6 @@
 mod asm;
 mod checks;
+mod evidence;
 mod framework;
 mod rng;
 mod shrink;
@@ -35,11 +36,16 @@ fn main() {
             let mut tier = std::env::var("VERIF_TIER").ok().and_then(|t| Tier::parse(&t)).unwrap_or(Tier::Quick);
             let mut workers = std::thread::available_parallelism().map(|n| n.get()).unwrap_or(8).min(16);
             let mut limit: Option<u64> = None;
+            let mut dump: Option<String> = None;
             let mut i = 3;
             while i < args.len() {
                 match args[i].as_str() {
                     "--tier" => {
                         tier = Tier::parse(args.get(i + 1).map(String::as_str).unwrap_or("")).unwrap_or_else(|| usage());
+                        i += 2;
+                    }
+                    "--dump-findings" => {
+                        dump = args.get(i + 1).cloned();
                         i += 2;
                     }
                     "--cases" => {
@@ -53,8 +59,15 @@ fn main() {
                     _ => usage(),
                 }
             }
-            let code = framework::check_main(find(&id), tier, workers, limit);
+            let code = framework::check_main(find(&id), tier, workers, limit, dump);
             std::process::exit(code);
+        }
+        Some("selftest") => {
+            let tier = std::env::var("VERIF_TIER").ok().and_then(|t| Tier::parse(&t)).unwrap_or(Tier::Quick);
+            match args.get(2).map(String::as_str) {
+                Some("determinism") => std::process::exit(framework::selftest_determinism(find("D00"), tier)),
+                _ => usage(),
+            }
         }
         Some("worker") => {
             let id = args.get(2).cloned().unwrap_or_else(|| usage());
@@ -110,6 +123,20 @@ fn main() {
                     sim::run(&sc, &RunOpts::default()).budget_exhausted
                 });
                 println!("{}", hex::encode(small));
+            });
+        }
+        Some("rounds") => {
+            // slx-sim rounds <file.hex>...: unification rounds of real contracts.
+            let files: Vec<String> = args[2..].to_vec();
+            sim::on_big_stack(move || {
+                for f in files {
+                    let code = hex::decode(std::fs::read_to_string(&f).unwrap().trim().trim_start_matches("0x")).expect("hex");
+                    let mut sc = Scenario::simple(code);
+                    sc.knobs.permissive = true;
+                    let t = std::time::Instant::now();
+                    let out = sim::run(&sc, &RunOpts::default());
+                    println!("{f} len={} class={:?} rounds={} folds={} max_fold={} events={} {:?}", sc.code.len(), out.class, out.record.unify_rounds, out.record.folds, out.record.fold_max_len, out.record.events, t.elapsed());
+                }
             });
         }
         Some("probe") => {
